@@ -21,6 +21,73 @@ def parse_chunk(cases):
     return len(cases), sum(1 for c in cases if len(c) > 1), bad[:3]
 
 
+def rows_chunk(cases):
+    """rows built from explicit pair lists, written with the real writer and read back"""
+    import io
+    from src.parsers.xmap_reader import XmapReader
+    from src.alignment.alignment_results import AlignmentResults, AlignmentResultRow
+    from src.alignment.alignment_position import AlignedPair, ScoredAlignedPair
+    from src.alignment.segments import AlignmentSegment
+    from src.alignment.segment_with_resolved_conflicts import AlignmentSegmentsWithResolvedConflicts
+    from src.correlation.optical_map import PositionWithSiteId
+    from src.correlation.peak import Peak
+    from src.args import Args
+    from bcheck.pipeline import parse_xmap_text
+    bad = []
+    for rowspecs in cases:
+        rows = []
+        for qid, rid, rev, pairs, rest in rowspecs:
+            n = max((q for _, q in pairs), default=1)
+            pos = [ScoredAlignedPair(AlignedPair(PositionWithSiteId(r, 1000.0 * r), PositionWithSiteId(q, 900.0 * ((n - q) if rev else (q - 1))), 0), 1000.)
+                   for r, q in pairs]
+            row = AlignmentResultRow.create(AlignmentSegmentsWithResolvedConflicts([AlignmentSegment(pos, 1000. * len(pos), Peak.null, [])]),
+                                            qid, rid, 900.0 * (n - 1) + 1, 99000, rev)
+            rows.append(row.setAlignedRest(rest))
+        buf = io.StringIO()
+        import argparse
+        args = argparse.Namespace(outputMode='best', peaksCount=3)
+        try:
+            XmapReader().writeAlignments(buf, AlignmentResults('r.cmap', 'q.cmap', rows), args)
+            text = buf.getvalue()
+            got = XmapReader().readAlignments(io.StringIO(text))
+        except Exception as e:
+            bad.append((rowspecs, f'exception:{type(e).__name__}:{e}'[:100]))
+            continue
+        _, recs = parse_xmap_text(text)
+        why = None
+        if len(got) != len(rows):
+            why = 'one_alignment_per_record_in_order'
+        else:
+            for a, row, rec in zip(got, rows, recs):
+                if a.queryId != row.queryId or a.referenceId != row.referenceId:
+                    why = 'same_ids'
+                elif a.orientation != row.orientation or a.reverseStrand != row.reverseStrand:
+                    why = 'same_orientation'
+                elif str(a.cigarString) != row.cigarString:
+                    why = 'same_hitenum'
+                elif [(p.reference.siteId, p.query.siteId) for p in a.alignedPairs] != [(p.reference.siteId, p.query.siteId) for p in row.alignedPairs]:
+                    why = 'same_label_pairs'
+                elif (a.queryStartPosition, a.queryEndPosition, a.referenceStartPosition, a.referenceEndPosition, a.queryLength, a.referenceLength) != \
+                        tuple(int(x) for x in (row.queryStartPosition, row.queryEndPosition, row.referenceStartPosition, row.referenceEndPosition,
+                                               row.queryLength, row.referenceLength)):
+                    why = 'coordinates_and_lengths_truncated_to_integers'
+                elif abs(float(a.confidence) - round(row.confidence, 2)) > 1e-9:
+                    why = 'confidence_to_two_decimals'
+        if why:
+            bad.append((rowspecs, why))
+    return len(cases), sum(1 for c in cases if len(c) > 1), bad[:3]
+
+
+def row_cases():
+    plists = [((1, 1),), ((3, 2),), ((1, 1), (2, 2)), ((2, 1), (3, 3), (5, 4)), ((1, 2), (4, 3))]
+    single = [(7, 1, rev, tuple((r, q) for r, q in (pl if not rev else [(r, max(q for _, q in pl) + 1 - q) for r, q in pl])), rest)
+              for pl in plists for rev in (False, True) for rest in (False, True)]
+    cases = [()] + [(s,) for s in single]
+    cases += [(a, b) for a in single[::3] for b in single[1::4]]
+    cases += [tuple(single[i:i + 5]) for i in range(0, len(single) - 5, 3)]
+    return cases
+
+
 def bounded(repo, tier, seed):
     ids = (1, 9, 10, 42, 100, 999)
     cases = [tuple(c) for n in (1, 2, 3) for c in itertools.product(itertools.product(ids, ids), repeat=n)][:: (7 if tier == 'quick' else 1)]
@@ -32,17 +99,31 @@ def bounded(repo, tier, seed):
             viol.append(dict(key=f"{PP}::monitor::C18::{why}", blame=PP, input=dict(kind='pairs', pairs=[list(p) for p in pairs]), observed=why, required='C18'))
     part1 = result(sum(r[0] for r in res), sum(r[1] for r in res), "pair strings of 1-3 pairs over label numbers with 1-3 digits through XmapAlignmentPairParser.parse",
                    [dict(pairs=[list(p) for p in cases[5]])], viol[:2], exhaustive=(tier != 'quick'), bounds="<= 3 pairs")
+    rc = row_cases()
+    res3 = pmap(rows_chunk, [rc[i:i + 40] for i in range(0, len(rc), 40)], repo)
+    RD = 'src/parsers/xmap_reader.py::XmapReader.readAlignments'
+    viol3 = [dict(key=f"{RD}::monitor::C18::{why}", blame=RD, input=dict(kind='rows', rows=[list(r) for r in spec]), observed=why, required='C18')
+             for r in res3 for spec, why in r[2]]
+    part3 = result(sum(r[0] for r in res3), sum(r[1] for r in res3), "hand-enumerated record sets (0, 1, 2, 5 records; one-pair records; both strands; AlignedRest "
+                   "True/False) built from explicit pair lists, written by the real writer and read back", [dict(rows=[list(r) for r in rc[3]])], viol3[:2],
+                   exhaustive=True, bounds="see rule")
     n = 40 if tier == 'quick' else 1000
     part2 = pd.run(repo, tier, seed, ['C18'], (lambda i: [['best', 'all', 'separate', 'joined'][i % 4]]) if tier == 'quick' else ['best', 'separate', 'joined', 'all'], n,
                    weights=[2, 2, 1, 2, 2, 2],
                    rule="every file written by the real program on generated CMAP sets (all modes, both strands, second-pass and joined records, one-record and "
                         "zero-record files) read back with XmapReader (plain and with-distance pair parser): one alignment per record in order, same ids, "
                         "orientation, HitEnum, label pairs, coordinates/lengths truncated to integers, confidence to 2 decimals, pair coordinates looked up from the same maps")
-    return merge([part1, part2])
+    return merge([part1, part3, part2])
 
 
 def replay(repo, rp):
     i = rp['input']
+    if i.get('kind') == 'rows':
+        from bcheck.common import use_repo
+        use_repo(repo)
+        def tup(x): return tuple(tup(y) for y in x) if isinstance(x, list) else x
+        n, nt, bad = rows_chunk([tup(i['rows'])])
+        return (not bad), bad
     if i.get('kind') == 'pairs':
         from bcheck.common import use_repo
         use_repo(repo)
